@@ -770,6 +770,7 @@ func genC08(c *Ctx) {
 	g.probeBackToBack(specs, byType)
 	g.tieFields()
 	g.probeBufferHelpers()
+	g.probeLibraryReceivers()
 	g.probeBufioBoundary()
 	g.probeMetaFields()
 	g.probeByteFieldRange()
